@@ -146,10 +146,10 @@ strvector *StrVectorExtend(strvector *s1, strvector *s2)
   strvector *sext;
   NewStrVector(&sext, (*s1).size+(*s2).size);
   for(i = 0; i < (*s1).size; i++) {
-      (*sext).data[i] = (*s1).data[i];
+      setStr(sext, i, getStr(s1, i)); /* copy the string: the result owns its cells */
   }
   for(i = 0; i < (*s2).size; i++) {
-      (*sext).data[i+(*s1).size] = (*s2).data[i];
+      setStr(sext, i+(*s1).size, getStr(s2, i));
   }
   return sext;
 }
